@@ -135,7 +135,12 @@ def check(chk: Check) -> None:
                     if op == '-':
                         ok = isinstance(ret, tuple) and ret[:2] == ('unop', '-') and derived_from(F, ret[2], a)
                     elif op == 'not':
-                        ok = isinstance(ret, tuple) and ret[:1] == ('not',) and derived_from(F, ret[1], a)
+                        inner = ret[1] if isinstance(ret, tuple) and ret[:1] == ('not',) else None
+                        if isinstance(inner, tuple) and inner[:2] == ('pcall', 'bool') and len(inner[2]) == 1:
+                            inner = inner[2][0]             # not bool(x) is not x
+                        elif isinstance(inner, tuple) and inner[:1] == ('call',) and inner[2] == ('ref', 'builtin', 'bool') and len(inner[3]) == 1 and not inner[4]:
+                            inner = inner[3][0]
+                        ok = inner is not None and derived_from(F, inner, a)
                     else:
                         ok = False
                     if not ok:
